@@ -167,6 +167,18 @@ def _dispatch_telemetry(
             yield outcome
         except BaseException as exc:
             hook_exc = exc
+            if outcome.status == "ok":
+                # No handler of the shell recorded this failure (it was raised
+                # outside them, e.g. an init method that returns something
+                # that is not a Stream).  The client is answered with an
+                # error, so the record must not say "ok".
+                cause = exc.cause if isinstance(exc, _RpcHttpError) else exc
+                outcome.status = "error"
+                outcome.error_type = type(cause).__name__
+                outcome.error_message = _truncate_error_message(cause)
+                outcome.http_status = (
+                    exc.status_code if isinstance(exc, _RpcHttpError) else HTTPStatus.INTERNAL_SERVER_ERROR
+                )
             raise
     finally:
         duration_ms = (time.monotonic() - start) * 1000
